@@ -15,6 +15,19 @@ import (
 
 func main() {
 	debug.SetMemoryLimit(20 << 30)
+	go func() {
+		var ms runtime.MemStats
+		for {
+			time.Sleep(2 * time.Second)
+			runtime.ReadMemStats(&ms)
+			if ms.HeapAlloc > 28<<30 {
+				memPressure.Store(true)
+				time.Sleep(10 * time.Second)
+				debug.FreeOSMemory()
+				memPressure.Store(false)
+			}
+		}
+	}()
 	if len(os.Args) < 2 {
 		fmt.Fprintln(os.Stderr, "usage: symgo dev|run|replay|selftest ...")
 		os.Exit(2)
